@@ -4,7 +4,7 @@ CONSTANTS
   Vals <- Vals12
   MaxList = 2
   MaxEnt = 3
-  SrcMode = "full"
+  SrcMode = "small"
 INIT Init
 NEXT Next
 VIEW View
